@@ -89,3 +89,116 @@ Example C03_example :
   (match q_curve_deriv (1#10000000000) o 2 true 0%Q with Ok v => map Qred v | Err _ => [] end) = [(-4); 0]%Q /\
   q_curve_deriv (1#10000000000) o 4 true 0%Q = Err RuntimeError.
 Proof. vm_compute. split; reflexivity. Qed.
+
+(* ------------------------------------------------------------------------------------------------------
+   Added in build session 4 (statements re-stated from the proof files by harness tooling; each is closed by
+   exact). *)
+From SplipyModel Require Import Proofs.RatDerivAnalytic.
+Open Scope R_scope.
+Theorem C03_curve_kernels_are_derivatives :
+  forall (a b : R) (n W : nat -> R -> R),
+         (forall (r : nat) (s : R), (r < 3)%nat -> a < s < b -> is_derive (n r) s (n (S r) s)) ->
+         (forall (r : nat) (s : R), (r < 3)%nat -> a < s < b -> is_derive (W r) s (W (S r) s)) ->
+         forall (d : nat) (t : R),
+         (d <= 3)%nat ->
+         a < t < b ->
+         W 0%nat t <> 0 ->
+         is_derive_n (fun s : R => n 0%nat s / W 0%nat s) d t (Qc (fun r : nat => n r t) (fun r : nat => W r t) d).
+Proof. exact @curve_kernels_are_derivatives. Qed.
+Print Assumptions C03_curve_kernels_are_derivatives.
+
+Theorem C03_quot1_is_partial_derivative :
+  forall (n W : (nat -> R) -> R) (p : nat -> R) (i : nat) (x nd Wd : R),
+         is_derive (fun y : R_AbsRing => n (upd p i y)) x nd ->
+         is_derive (fun y : R_AbsRing => W (upd p i y)) x Wd ->
+         W (upd p i x) <> 0 ->
+         is_derive (fun y : R_AbsRing => n (upd p i y) / W (upd p i y)) x (quot1 nd (n (upd p i x)) Wd (W (upd p i x))).
+Proof. exact @quot1_is_partial_derivative. Qed.
+Print Assumptions C03_quot1_is_partial_derivative.
+
+Theorem C03_surface_kernels_are_partials :
+  forall (a1 b1 a2 b2 : R) (n W : nat -> nat -> R -> R -> R),
+         (forall (i j : nat) (u v : R),
+          (i + j < 3)%nat -> a1 < u < b1 /\ a2 < v < b2 -> is_derive (fun x : R_AbsRing => n i j x v) u (n (S i) j u v)) ->
+         (forall (i j : nat) (u v : R),
+          (i + j < 3)%nat -> a1 < u < b1 /\ a2 < v < b2 -> is_derive (fun y : R_AbsRing => n i j u y) v (n i (S j) u v)) ->
+         (forall (i j : nat) (u v : R),
+          (i + j < 3)%nat -> a1 < u < b1 /\ a2 < v < b2 -> is_derive (fun x : R_AbsRing => W i j x v) u (W (S i) j u v)) ->
+         (forall (i j : nat) (u v : R),
+          (i + j < 3)%nat -> a1 < u < b1 /\ a2 < v < b2 -> is_derive (fun y : R_AbsRing => W i j u y) v (W i (S j) u v)) ->
+         forall (i j : nat) (u v : R),
+         (i + j <= 3)%nat ->
+         a1 < u < b1 /\ a2 < v < b2 ->
+         W 0%nat 0%nat u v <> 0 ->
+         is_derive_n (fun x : R => Derive_n (fun y : R => n 0%nat 0%nat x y / W 0%nat 0%nat x y) j v) i u
+           (Qs (fun a b : nat => n a b u v) (fun a b : nat => W a b u v) i j).
+Proof. exact @surface_kernels_are_partials. Qed.
+Print Assumptions C03_surface_kernels_are_partials.
+
+Theorem C03_surface_mixed_partial :
+  forall (a1 b1 a2 b2 : R) (n W : nat -> nat -> R -> R -> R),
+         (forall (i j : nat) (u v : R),
+          (i + j < 3)%nat -> a1 < u < b1 /\ a2 < v < b2 -> is_derive (fun x : R_AbsRing => n i j x v) u (n (S i) j u v)) ->
+         (forall (i j : nat) (u v : R),
+          (i + j < 3)%nat -> a1 < u < b1 /\ a2 < v < b2 -> is_derive (fun y : R_AbsRing => n i j u y) v (n i (S j) u v)) ->
+         (forall (i j : nat) (u v : R),
+          (i + j < 3)%nat -> a1 < u < b1 /\ a2 < v < b2 -> is_derive (fun x : R_AbsRing => W i j x v) u (W (S i) j u v)) ->
+         (forall (i j : nat) (u v : R),
+          (i + j < 3)%nat -> a1 < u < b1 /\ a2 < v < b2 -> is_derive (fun y : R_AbsRing => W i j u y) v (W i (S j) u v)) ->
+         forall u v : R,
+         a1 < u < b1 /\ a2 < v < b2 ->
+         W 0%nat 0%nat u v <> 0 ->
+         is_derive (fun x : R_AbsRing => Derive (fun y : R => n 0%nat 0%nat x y / W 0%nat 0%nat x y) v) u
+           (surf_d11 (fun a b : nat => n a b u v) (fun a b : nat => W a b u v)).
+Proof. exact @surf_d11_is_mixed_partial. Qed.
+Print Assumptions C03_surface_mixed_partial.
+
+Theorem C03_rational_curve_derivative_is_derivative :
+  forall k : nat -> R,
+         sorted k ->
+         forall (m q cnt : nat) (c w : nat -> R) (d : nat) (t : R),
+         (d <= 3)%nat ->
+         k m < t < k (S m) ->
+         sumf (fun i : nat => w i * B true k q i t) 0 cnt <> 0 ->
+         is_derive_n
+           (fun s : R =>
+            sumf (fun i : nat => c i * B true k q i s) 0 cnt / sumf (fun i : nat => w i * B true k q i s) 0 cnt) d t
+           (Qc (fun r : nat => spl k q cnt c r t) (fun r : nat => spl k q cnt w r t) d).
+Proof. exact @rational_curve_derivative_is_derivative. Qed.
+Print Assumptions C03_rational_curve_derivative_is_derivative.
+
+Theorem C03_rational_surface_derivative_is_partial :
+  forall k1 k2 : nat -> R,
+         sorted k1 ->
+         sorted k2 ->
+         forall (m1 m2 q1 q2 c1 c2 : nat) (c w : nat -> nat -> R) (i j : nat) (u v : R),
+         (i + j <= 3)%nat ->
+         k1 m1 < u < k1 (S m1) ->
+         k2 m2 < v < k2 (S m2) ->
+         spl2 k1 k2 q1 q2 c1 c2 w 0 0 u v <> 0 ->
+         is_derive_n
+           (fun x : R =>
+            Derive_n (fun y : R => spl2 k1 k2 q1 q2 c1 c2 c 0 0 x y / spl2 k1 k2 q1 q2 c1 c2 w 0 0 x y) j v) i u
+           (Qs (fun a b : nat => spl2 k1 k2 q1 q2 c1 c2 c a b u v) (fun a b : nat => spl2 k1 k2 q1 q2 c1 c2 w a b u v)
+              i j).
+Proof. exact @rational_surface_derivative_is_partial. Qed.
+Print Assumptions C03_rational_surface_derivative_is_partial.
+
+Theorem C03_tangent_is_normalised :
+  forall v : vec3,
+         0 < dot3 v v ->
+         dot3 (normalize3 v) (normalize3 v) = 1 /\
+         normalize3 v = scal3 (/ norm3 v) v /\ 0 < / norm3 v /\ cross3 v (normalize3 v) = (0, 0, 0).
+Proof. exact @normalize3_spec. Qed.
+Print Assumptions C03_tangent_is_normalised.
+
+Theorem C03_normal_is_normalised_cross :
+  forall du dv : vec3,
+         0 < dot3 (cross3 du dv) (cross3 du dv) ->
+         let N := normal3 du dv in
+         dot3 N N = 1 /\
+         dot3 N du = 0 /\
+         dot3 N dv = 0 /\ N = scal3 (/ norm3 (cross3 du dv)) (cross3 du dv) /\ 0 < / norm3 (cross3 du dv).
+Proof. exact @normal3_spec. Qed.
+Print Assumptions C03_normal_is_normalised_cross.
+
